@@ -39,3 +39,10 @@ func init() {
 	tab.Reg("y.Y", Y)
 	tab.Reg("y.Long", LongFunctionNameForTruncationongFunctionNameForTruncationongFunctionNameForTruncationongFunctionNameForTruncationongFunctionNameForTruncationongFunctionNameForTruncationongFunctionNameForTruncation)
 }
+
+// CallNext and DoInc are small exported helpers that the compiler inlines
+// into callers in OTHER packages (lib/x.InlY*): the inlined frame belongs to
+// package y while its PC and entry are those of the enclosing x function.
+func CallNext(ch []int, i int) { tab.T[ch[i+1]](ch, i+1) }
+
+func DoInc() { tab.C.Inc() }
